@@ -12,7 +12,11 @@
      CAND <k> <n>                 followed by n lines "<q> : c c c" (candidate list res[q][1..] of the real batch query
                                   called with k+1) -> n lines
                                   "K <q> <cand_complete_b> <cand_exact_b> | <ct_select_fixed items> | <dists_sorted>"
-     CT ...                       cover-tree model commands, see below
+     CT <K> <nnodes>              followed by the preorder dump "t <p> <maxd> <pard> <scale> <nchildren>" of the REAL cover
+                                  tree -> "CT <ok> <nrows> inv=.. holds=.. audit=.." then nrows lines "CQ <q> : c c c"
+                                  (the model batch query, internal_k = K, run on the real tree)
+     BUILD                        -> "BT <nnodes>" then nnodes lines "bt <p> <maxd> <pard> <scale> <nchildren>": the tree
+                                  the model of batch_create builds for the samples 0..N-1
      END                          -> "END"
    Anything malformed -> "? ..." *)
 open C02_model
@@ -160,6 +164,21 @@ let () =
                Printf.printf "CT 1 %d inv=1 holds=1 audit=%s\n" (List.length rows) (b01 ok);
                List.iter (fun (q, cands) -> Printf.printf "CQ %d : %s\n" (int_of_z q) (zl cands)) rows
            end
+         | ["BUILD"] ->
+           (* the model of batch_create on the samples 0..N-1 in order, printed in the format of the harness dump *)
+           (match batch_create dfun (nat_of_int (4 * !n_cur + 2000)) (samples (nat_of_int !n_cur)) with
+            | None -> print_string "BT 0\n"
+            | Some t ->
+              let buf = Buffer.create 1024 in
+              let cnt = ref 0 in
+              let rec pr = function
+                | CN (p, md, pd, sc, ch) ->
+                  incr cnt;
+                  Buffer.add_string buf (Printf.sprintf "bt %d %s %s %d %d\n" (int_of_z p) (string_of_int (int_of_z md))
+                                           (string_of_int (int_of_z pd)) (int_of_nat sc) (List.length ch));
+                  List.iter pr ch in
+              pr t;
+              Printf.printf "BT %d\n%s" !cnt (Buffer.contents buf))
          | ["END"] -> print_string "END\n"
          | _ -> print_string "? unknown\n"
        with Bad m -> Printf.printf "? bad-input %s\n" m);
